@@ -1107,3 +1107,20 @@ FAMILIES = [
            imports=["Model.Json"], project=project, corpus=_corpus_rich(), shrink=shrink,
            describe=describe_rich, shard=60, coq_shard=40),
 ]
+
+
+# ---- large messages: the one-write discipline must not depend on the size of the line (oracle only:
+# evaluating 10^5-character literals inside Coq would dominate the run) ----
+def gen_large(rng, tier):
+    out = []
+    for size in ([70000, 140000, 300000] if tier == "quick" else [1000, 70000, 131071, 131072, 140000, 300000, 1200000]):
+        for kind in ("direct", "logger"):
+            big = ["s", [rng.choice([0x61, 0x62, 0xe9, 0x20]) for _ in range(8)] * (size // 8)]
+            out.append({"kind": kind, "msgs": [["o", [[_str_tag("n"), ["i", 1]], [_str_tag("big"), big]]],
+                                              ["o", [[_str_tag("after"), ["i", 2]]]]]})
+    return out
+
+
+FAMILIES.append(Family("large", gen_large, impl, None, None, oracle,
+                       lambda case, obs: "size%d" % len(case["msgs"][0][1][1][1][1]),
+                       describe=lambda c: ["large:%dk" % (len(c["msgs"][0][1][1][1][1]) // 1000), c["kind"]], shard=2, case_timeout=60))
